@@ -94,8 +94,42 @@ class Canon(ast.NodeTransformer):
             return ast.copy_location(n, node)
         return node
 
+    def _as_test(self, t: ast.AST) -> ast.AST:
+        """An expression that is only used for its truth value: `bool(X)` -> X; `True if C else D` -> `C or D`; `D if C else False` -> `C and D`."""
+        for _ in range(4):
+            if isinstance(t, ast.Call) and isinstance(t.func, ast.Name) and t.func.id == 'bool' and len(t.args) == 1 and not t.keywords:
+                t = t.args[0]
+            elif isinstance(t, ast.IfExp) and isinstance(t.body, ast.Constant) and t.body.value is True:
+                t = self.visit_BoolOp(ast.copy_location(ast.BoolOp(op=ast.Or(), values=[t.test, self._as_test(t.orelse)]), t))
+            elif isinstance(t, ast.IfExp) and isinstance(t.orelse, ast.Constant) and t.orelse.value is False:
+                t = self.visit_BoolOp(ast.copy_location(ast.BoolOp(op=ast.And(), values=[t.test, self._as_test(t.body)]), t))
+            elif isinstance(t, ast.BoolOp):
+                vals = [self._as_test(v) for v in t.values]
+                flat = []
+                for v in vals:          # (a or b) or c -> a or b or c
+                    flat.extend(v.values if isinstance(v, ast.BoolOp) and type(v.op) is type(t.op) else [v])
+                t.values = flat
+                break
+            elif isinstance(t, ast.UnaryOp) and isinstance(t.op, ast.Not):
+                t.operand = self._as_test(t.operand)
+                break
+            else:
+                break
+        return t
+
+    def visit_comprehension(self, node: ast.comprehension):
+        self.generic_visit(node)
+        node.ifs = [self._as_test(c) for c in node.ifs]
+        return node
+
+    def visit_While(self, node: ast.While):
+        self.generic_visit(node)
+        node.test = self._as_test(node.test)
+        return node
+
     def visit_If(self, node: ast.If):
         self.generic_visit(node)
+        node.test = self._as_test(node.test)
         if node.orelse and isinstance(node.test, ast.UnaryOp) and isinstance(node.test.op, ast.Not) \
                 and not (len(node.orelse) == 1 and isinstance(node.orelse[0], ast.If)):
             node.test = node.test.operand
@@ -149,6 +183,7 @@ class Canon(ast.NodeTransformer):
 
     def visit_IfExp(self, node: ast.IfExp):
         self.generic_visit(node)
+        node.test = self._as_test(node.test)
         if isinstance(node.test, ast.UnaryOp) and isinstance(node.test.op, ast.Not):
             node.test = node.test.operand
             node.body, node.orelse = node.orelse, node.body
@@ -164,6 +199,16 @@ class Canon(ast.NodeTransformer):
                 if not hasattr(x, 'lineno'):
                     ast.copy_location(x, node)
             return ast.copy_location(call, node)
+        return node
+
+    def visit_Expr(self, node: ast.Expr):
+        self.generic_visit(node)
+        # setattr(o, 'name', v)  ->  o.name = v
+        c = node.value
+        if isinstance(c, ast.Call) and isinstance(c.func, ast.Name) and c.func.id == 'setattr' and len(c.args) == 3 and not c.keywords \
+                and isinstance(c.args[1], ast.Constant) and isinstance(c.args[1].value, str) and c.args[1].value.isidentifier():
+            tgt = ast.Attribute(value=c.args[0], attr=c.args[1].value, ctx=ast.Store())
+            return ast.copy_location(ast.Assign(targets=[ast.copy_location(tgt, c)], value=c.args[2]), node)
         return node
 
     def visit_Assign(self, node: ast.Assign):
@@ -364,9 +409,38 @@ def _literal_table(v: ast.AST) -> Optional[List[List[ast.AST]]]:
     return rows
 
 
+def _fuse_nested(node):
+    """(E(x) for x in (y for y in S if P(y)) if Q(x))  ->  (E(x) for x in S if P(x) if Q(x)): a pass over a pure filter is a filtered pass.  Likewise over a
+    list comprehension or a list()/tuple() of the filter (nothing else reads the intermediate sequence)."""
+    import copy
+    if len(node.generators) != 1 or not isinstance(node.generators[0].target, ast.Name):
+        return node
+    g = node.generators[0]
+    for _ in range(3):
+        inner = g.iter
+        if isinstance(inner, ast.Call) and isinstance(inner.func, ast.Name) and inner.func.id in ('list', 'tuple', 'iter') and len(inner.args) == 1 and not inner.keywords:
+            inner = inner.args[0]
+        if not isinstance(inner, (ast.GeneratorExp, ast.ListComp)) or len(inner.generators) != 1 or not isinstance(inner.generators[0].target, ast.Name) \
+                or not isinstance(inner.elt, ast.Name) or inner.elt.id != inner.generators[0].target.id:
+            break
+        ig = inner.generators[0]
+        ren = _Subst({ig.target.id: ast.Name(id=g.target.id, ctx=ast.Load())})
+        g.ifs = [ren.visit(copy.deepcopy(c)) for c in ig.ifs] + g.ifs
+        g.iter = ig.iter
+    return node
+
+
 class _Subst(ast.NodeTransformer):
     def __init__(self, mapping):
         self.m = mapping
+
+    def visit_GeneratorExp(self, node):
+        self.generic_visit(node)
+        return _fuse_nested(node)
+
+    def visit_ListComp(self, node):
+        self.generic_visit(node)
+        return _fuse_nested(node)
 
     def visit_Name(self, node):
         if isinstance(node.ctx, ast.Load) and node.id in self.m:
@@ -403,15 +477,45 @@ class _Subst(ast.NodeTransformer):
             if iname == 'methodcaller' and len(inner.args) == 1 and isinstance(inner.args[0], ast.Constant) and isinstance(inner.args[0].value, str) \
                     and inner.args[0].value.isidentifier():
                 return ast.copy_location(ast.Call(func=ast.Attribute(value=node.args[0], attr=inner.args[0].value, ctx=ast.Load()), args=[], keywords=[]), node)
+        # partial(g, a, k=v)(x)  ->  g(a, x, k=v)
+        if isinstance(node.func, ast.Call) and (getattr(node.func.func, 'attr', None) or getattr(node.func.func, 'id', '')) == 'partial' and node.func.args \
+                and isinstance(node.func.args[0], (ast.Name, ast.Attribute)) and not any(isinstance(a, ast.Starred) for a in node.func.args):
+            pc = node.func
+            return ast.copy_location(ast.Call(func=pc.args[0], args=list(pc.args[1:]) + list(node.args), keywords=list(pc.keywords) + list(node.keywords)), node)
+        # chain(A, B, c)  ->  (*A, *B, *c)      (one pass over each, in order)
+        if fname == 'chain' and isinstance(node.func, (ast.Name, ast.Attribute)) and (isinstance(node.func, ast.Name) or ast.unparse(node.func) == 'itertools.chain') \
+                and node.args and not node.keywords and not any(isinstance(a, ast.Starred) for a in node.args):
+            tup = ast.Tuple(elts=[ast.Starred(value=a, ctx=ast.Load()) for a in node.args], ctx=ast.Load())
+            for x in ast.walk(tup):
+                if not hasattr(x, 'lineno'):
+                    ast.copy_location(x, node)
+            return ast.copy_location(tup, node)
+        if fname == 'from_iterable' and isinstance(node.func, ast.Attribute) and ast.unparse(node.func.value) in ('chain', 'itertools.chain') and len(node.args) == 1 \
+                and isinstance(node.args[0], (ast.Tuple, ast.List)) and not any(isinstance(a, ast.Starred) for a in node.args[0].elts):
+            tup = ast.Tuple(elts=[ast.Starred(value=a, ctx=ast.Load()) for a in node.args[0].elts], ctx=ast.Load())
+            for x in ast.walk(tup):
+                if not hasattr(x, 'lineno'):
+                    ast.copy_location(x, node)
+            return ast.copy_location(tup, node)
+        # list(<generator expression>)  ->  list comprehension
+        if isinstance(node.func, ast.Name) and fname == 'list' and len(node.args) == 1 and not node.keywords and isinstance(node.args[0], ast.GeneratorExp):
+            return ast.copy_location(ast.ListComp(elt=node.args[0].elt, generators=node.args[0].generators), node)
+        # tuple(<display>) / list(<display>)  ->  the display
+        if isinstance(node.func, ast.Name) and fname in ('tuple', 'list') and len(node.args) == 1 and not node.keywords and isinstance(node.args[0], (ast.Tuple, ast.List)):
+            mk = ast.Tuple if fname == 'tuple' else ast.List
+            return ast.copy_location(mk(elts=node.args[0].elts, ctx=ast.Load()), node)
         # map(f, xs) -> (f(x) for x in xs) ; filter(f, xs) -> (x for x in xs if f(x)) ; filter(None, xs) -> (x for x in xs if x)      [iterators either way]
-        if isinstance(node.func, ast.Name) and fname in ('map', 'filter') and len(node.args) == 2 and not node.keywords \
-                and not any(isinstance(a, ast.Starred) for a in node.args):
+        if isinstance(node.func, (ast.Name, ast.Attribute)) and fname in ('map', 'filter', 'filterfalse') and len(node.args) == 2 and not node.keywords \
+                and not any(isinstance(a, ast.Starred) for a in node.args) and (isinstance(node.func, ast.Name) or ast.unparse(node.func) == 'itertools.filterfalse'):
             f, xs = node.args
-            v = ast.Name(id=f'_{fname[0]}x', ctx=ast.Load())
-            if any(isinstance(x, ast.Name) and x.id == v.id for x in ast.walk(node)):
-                return node
+            used = {x.id for x in ast.walk(node) if isinstance(x, ast.Name)}
+            vn = next(n_ for n_ in [f'_{fname[0]}x'] + [f'_{fname[0]}x{k_}' for k_ in range(2, 9)] if n_ not in used)
+            v = ast.Name(id=vn, ctx=ast.Load())
 
             def apply(fn):
+                if isinstance(fn, ast.Call) and (getattr(fn.func, 'attr', None) or getattr(fn.func, 'id', '')) == 'partial' and fn.args \
+                        and isinstance(fn.args[0], (ast.Name, ast.Attribute)) and not any(isinstance(a, ast.Starred) for a in fn.args):
+                    return ast.Call(func=fn.args[0], args=list(fn.args[1:]) + [copy.deepcopy(v)], keywords=list(fn.keywords))
                 if isinstance(fn, ast.Call) and (getattr(fn.func, 'attr', None) or getattr(fn.func, 'id', '')) == 'attrgetter' and len(fn.args) == 1 \
                         and isinstance(fn.args[0], ast.Constant) and isinstance(fn.args[0].value, str) and fn.args[0].value.isidentifier():
                     return ast.Attribute(value=copy.deepcopy(v), attr=fn.args[0].value, ctx=ast.Load())
@@ -427,9 +531,12 @@ class _Subst(ast.NodeTransformer):
                 if e is not None:
                     gen = ast.GeneratorExp(elt=e, generators=[ast.comprehension(target=tgt, iter=xs, ifs=[], is_async=0)])
             elif isinstance(f, ast.Constant) and f.value is None:
-                gen = ast.GeneratorExp(elt=copy.deepcopy(v), generators=[ast.comprehension(target=tgt, iter=xs, ifs=[copy.deepcopy(v)], is_async=0)])
+                cond = copy.deepcopy(v) if fname == 'filter' else ast.UnaryOp(op=ast.Not(), operand=copy.deepcopy(v))
+                gen = ast.GeneratorExp(elt=copy.deepcopy(v), generators=[ast.comprehension(target=tgt, iter=xs, ifs=[cond], is_async=0)])
             else:
                 e = apply(f)
+                if e is not None and fname == 'filterfalse':
+                    e = ast.UnaryOp(op=ast.Not(), operand=e)
                 if e is not None:
                     gen = ast.GeneratorExp(elt=copy.deepcopy(v), generators=[ast.comprehension(target=tgt, iter=xs, ifs=[e], is_async=0)])
             if gen is not None:
@@ -962,6 +1069,55 @@ class Desugar(ast.NodeTransformer):
                     ast.fix_missing_locations(asg)
                     body.insert(bi, asg)
                     bi += 1
+            bi += 1
+        # D19: if C: v = <display A> else: v = <display B>   ->   v = A if C else B      (one binding; D9 then reads joins over it)
+        for bi, b0 in enumerate(body):
+            if isinstance(b0, ast.If) and len(b0.body) == 1 and len(b0.orelse) == 1 and all(
+                    isinstance(x, ast.Assign) and len(x.targets) == 1 and isinstance(x.targets[0], ast.Name) and isinstance(x.value, (ast.Tuple, ast.List))
+                    and not any(isinstance(e, ast.Starred) for e in x.value.elts) for x in (b0.body[0], b0.orelse[0])) \
+                    and b0.body[0].targets[0].id == b0.orelse[0].targets[0].id and getattr(self, 'stores', None) is not None \
+                    and self.stores.get(b0.body[0].targets[0].id, 0) == 2:
+                vname = b0.body[0].targets[0].id
+                body[bi] = ast.copy_location(ast.Assign(targets=[ast.Name(id=vname, ctx=ast.Store())],
+                                                        value=ast.IfExp(test=b0.test, body=b0.body[0].value, orelse=b0.orelse[0].value)), b0)
+                ast.fix_missing_locations(body[bi])
+                self.stores[vname] = 1
+        # D18: L = [E(x) for x in (*A, *B, c)]   ->   L = [] ; L.extend(E(x) for x in A) ; L.extend(E(x) for x in B) ; L.append(E(c))
+        bi = 0
+        while bi < len(body):
+            b0 = body[bi]
+            tgt = None
+            if isinstance(b0, ast.Assign) and len(b0.targets) == 1 and isinstance(b0.targets[0], ast.Name):
+                tgt = b0.targets[0]
+            elif isinstance(b0, ast.AnnAssign) and isinstance(b0.target, ast.Name) and b0.value is not None:
+                tgt = b0.target
+            v0 = b0.value if tgt is not None else None
+            if tgt is not None and isinstance(v0, ast.ListComp) and len(v0.generators) == 1 and isinstance(v0.generators[0].target, ast.Name) \
+                    and isinstance(v0.generators[0].iter, (ast.Tuple, ast.List)) and any(isinstance(e, ast.Starred) for e in v0.generators[0].iter.elts) \
+                    and len(v0.generators[0].iter.elts) <= 8 and not any(isinstance(x, ast.Name) and x.id == tgt.id for x in ast.walk(v0)):
+                g0 = v0.generators[0]
+                new_stmts: List[ast.stmt] = [ast.Assign(targets=[ast.Name(id=tgt.id, ctx=ast.Store())], value=ast.List(elts=[], ctx=ast.Load()))]
+                for e in g0.iter.elts:
+                    if isinstance(e, ast.Starred):
+                        gen = ast.GeneratorExp(elt=copy.deepcopy(v0.elt), generators=[ast.comprehension(target=copy.deepcopy(g0.target), iter=e.value,
+                                                                                                        ifs=[copy.deepcopy(c) for c in g0.ifs], is_async=0)])
+                        gen = _fuse_nested(gen)
+                        call = ast.Call(func=ast.Attribute(value=ast.Name(id=tgt.id, ctx=ast.Load()), attr='extend', ctx=ast.Load()), args=[gen], keywords=[])
+                        new_stmts.append(ast.Expr(value=call))
+                    else:
+                        item = _Subst({g0.target.id: e}).visit(copy.deepcopy(v0.elt))
+                        call = ast.Call(func=ast.Attribute(value=ast.Name(id=tgt.id, ctx=ast.Load()), attr='append', ctx=ast.Load()), args=[item], keywords=[])
+                        st_: ast.stmt = ast.Expr(value=call)
+                        if g0.ifs:
+                            conds = [_Subst({g0.target.id: e}).visit(copy.deepcopy(c)) for c in g0.ifs]
+                            st_ = ast.If(test=conds[0] if len(conds) == 1 else ast.BoolOp(op=ast.And(), values=conds), body=[st_], orelse=[])
+                        new_stmts.append(st_)
+                for st_ in new_stmts:
+                    ast.copy_location(st_, b0)
+                    ast.fix_missing_locations(st_)
+                body[bi:bi + 1] = new_stmts
+                bi += len(new_stmts)
+                continue
             bi += 1
         # D12: M.update(dict.fromkeys(KEYS, V))   ->   for k in KEYS: M[k] = V
         for bi, b0 in enumerate(body):
